@@ -6,16 +6,16 @@ Resource proofs (C09 / C10 / C03), shared base: an invariant-preservation tactic
 `setAt` / `assocGet` / `assocSet`.
 -/
 set_option linter.unusedVariables false
-namespace AsherahVerif.Env
+namespace AsherahVerif.Env.Res
 
 /-! ### `Preserves` for the raw state functions of the model -/
 
 /-- a function that always succeeds, written as a raw lambda in the model. -/
-theorem Preserves.lam {α : Type} {I : World → Prop} (f : World → α) (g : World → World)
+theorem _root_.AsherahVerif.Env.Preserves.lam {α : Type} {I : World → Prop} (f : World → α) (g : World → World)
     (h : ∀ w, I w → I (g w)) : Preserves I (fun w => ((.ok (f w), g w) : Except Err α × World)) :=
   fun w hw => h w hw
 
-theorem Preserves.ite {α : Type} {I : World → Prop} {c : Prop} [Decidable c] {x y : M α}
+theorem _root_.AsherahVerif.Env.Preserves.ite {α : Type} {I : World → Prop} {c : Prop} [Decidable c] {x y : M α}
     (hx : Preserves I x) (hy : Preserves I y) : Preserves I (if c then x else y) := by
   split <;> assumption
 
@@ -145,7 +145,7 @@ theorem Spec.tryM {α : Type} {P : World → Prop} {x : M α} {R : α → World 
     rw [hr] at h
     cases r <;> exact h
 
-theorem Preserves.toSpec {α : Type} {I : World → Prop} {x : M α} (h : Preserves I x) :
+theorem _root_.AsherahVerif.Env.Preserves.toSpec {α : Type} {I : World → Prop} {x : M α} (h : Preserves I x) :
     Spec I x (fun _ => I) I := by
   intro w hw
   have := h w hw
@@ -222,4 +222,4 @@ theorem getElem?_lt {α : Type} {l : List α} {i : Nat} {a : α} (h : l[i]? = so
   apply Classical.byContradiction; intro hc
   rw [List.getElem?_eq_none (by omega)] at h; cases h
 
-end AsherahVerif.Env
+end AsherahVerif.Env.Res
